@@ -49,7 +49,7 @@ type edit struct {
 type census struct {
 	Lock, Unlock, RLock, RUnlock int
 	CondWait, CondSignal, CondBcast int
-	OnceDo, Close, Recv, Go, MapRange, Loops int
+	OnceDo, Close, Recv, Go, MapRange, Loops, Timers int
 	TimerCB, NbSendYield, Select      int
 }
 
@@ -375,6 +375,31 @@ func pass1(fset *token.FileSet, f *ast.File, info *types.Info, src []byte, fname
 			}
 			sel, ok := x.Fun.(*ast.SelectorExpr)
 			if !ok {
+				return true
+			}
+			// timers: the simulator keeps a list of pending expiries (the network may align a delivery with one)
+			if id, ok := sel.X.(*ast.Ident); ok {
+				if pn, ok := info.Uses[id].(*types.PkgName); ok && pn.Imported().Path() == "time" {
+					switch sel.Sel.Name {
+					case "AfterFunc":
+						add(x.Pos(), x.Lparen+1, "vsimAfterFunc(")
+						cen.Timers++
+					case "NewTimer":
+						add(x.Pos(), x.Lparen+1, "vsimNewTimer(")
+						cen.Timers++
+					}
+					return true
+				}
+			}
+			if trt := info.TypeOf(sel.X); trt != nil && isNamed(trt, "time", "Timer") {
+				switch sel.Sel.Name {
+				case "Reset":
+					add(x.Pos(), x.Lparen+1, fmt.Sprintf("vsimTimerReset(%s, ", text(sel.X)))
+					cen.Timers++
+				case "Stop":
+					add(x.Pos(), x.Lparen+1, fmt.Sprintf("vsimTimerStop(%s", text(sel.X)))
+					cen.Timers++
+				}
 				return true
 			}
 			rt := info.TypeOf(sel.X)
